@@ -28,7 +28,7 @@ PROBE_FLOORS = ["clean_trailing_path", "ensure_lru_stems"]
 def universe():
     out = []
     for s, port, host, path, q, f in itertools.product(("http", "https"), ("", ":8080"), ("lemonde.fr", "www.lemonde.fr", "blog.www.lemonde.fr", "bbc.co.uk", "news.bbc.co.uk", "co.uk"),
-                                                      ("", "/", "/x", "/x/", "/x/y", "//x//", "/1|2:3"), ("", "?a=1"), ("", "#f")):
+                                                      ("", "/", "/x", "/x/", "/x/y", "//x//", "/1|2:3", "/a|x:b"), ("", "?a=1"), ("", "#f")):
         out.append("%s://%s%s%s%s%s" % (s, host, port, path, q, f))
     return out
 
